@@ -135,10 +135,14 @@ Definition auth_api (fx : bool) (chain : list cert) (issuer : option cert) : vre
     end
   end.
 
-(* ---- checkPathLenConstraint (matrixssl.c 2268-2300): true = PS_SUCCESS *)
-Definition pathlen_check (ic sc : cert) (pl : Z) : bool :=
+(* ---- checkPathLenConstraint (matrixssl.c 2268-2300): true = PS_SUCCESS.
+   "sc and ic are the same CA": pinned code compares sigHash only, the repaired code asks
+   psX509IsSameCert (TBS digest and signature value) *)
+Definition same_ca (fx : bool) (sc ic : cert) : bool :=
+  (c_tbs sc =? c_tbs ic)%N && (if fx then (c_sig sc =? c_sig ic)%N else true).
+Definition pathlen_check (fx : bool) (ic sc : cert) (pl : Z) : bool :=
   if (c_pathlen ic >=? 0)%Z then
-    let pl' := if (c_tbs sc =? c_tbs ic)%N && (pl >? 0)%Z then (pl - 1)%Z else pl in
+    let pl' := if same_ca fx sc ic && (pl >? 0)%Z then (pl - 1)%Z else pl in
     negb (c_pathlen ic <? pl')%Z
   else true.
 
@@ -156,23 +160,26 @@ Fixpoint reval_chain (cs : list cert) : option Z * list cst :=
   end.
 
 (* ---- walk of the supplied chain, leaf first (matrixssl.c 2419-2463).
-   inl (rc, states)            : returned with rc
-   inr (pathLen, states, top)  : chain authenticated; [top] is the parent-most certificate, the
-                                 states are those of the certificates below it *)
-Fixpoint walk (fx : bool) (pl : Z) (sc : cert) (s : cst) (rest : list cert)
-  : (Z * list cst) + (Z * list cst * cert) :=
+   inl (rc, states, foundIssuer) : returned with rc
+   inr (pathLen, states, top)    : chain authenticated; [top] is the parent-most certificate, the
+                                   states are those of the certificates below it.
+   [idx] is the position of [sc]; [f] the current value of *foundIssuer (every successful
+   psX509AuthenticateCert call stores its issuer there). *)
+Fixpoint walk (fx : bool) (pl : Z) (sc : cert) (s : cst) (rest : list cert) (idx : nat) (f : found)
+  : (Z * list cst * found) + (Z * list cst * cert) :=
   match rest with
   | [] => inr (pl, [], sc)
   | ic :: rest' =>
       (* psX509AuthenticateCert(sc, ic) first does issuerCert->authStatus = PS_FALSE *)
       let (r, s') := auth_one fx false sc ic s in
       let rc := match r with Some rc => rc | None => c_PS_SUCCESS end in
-      if (rc <? c_PS_SUCCESS)%Z then inl (rc, s' :: reset ic :: map init rest')
-      else if negb (pathlen_check ic sc pl) then
-        inl (c_PS_CERT_AUTH_FAIL_PATH_LEN, set_st s' c_PS_CERT_AUTH_FAIL_PATH_LEN :: reset ic :: map init rest')
+      let f' := match r with Some _ => f | None => FChain (S idx) end in
+      if (rc <? c_PS_SUCCESS)%Z then inl (rc, s' :: reset ic :: map init rest', f')
+      else if negb (pathlen_check fx ic sc pl) then
+        inl (c_PS_CERT_AUTH_FAIL_PATH_LEN, set_st s' c_PS_CERT_AUTH_FAIL_PATH_LEN :: reset ic :: map init rest', f')
       else
-        match walk fx (pl + 1) ic (reset ic) rest' with
-        | inl (rc', l) => inl (rc', s' :: l)
+        match walk fx (pl + 1) ic (reset ic) rest' (S idx) f' with
+        | inl (rc', l, f'') => inl (rc', s' :: l, f'')
         | inr (pl', l, top) => inr (pl', s' :: l, top)
         end
   end.
@@ -190,7 +197,7 @@ Fixpoint anchor_loop (fx rv : bool) (leaf : cert) (pl : Z) (sc : cert) (s : cst)
       let (r, s1) := auth_one fx false sc a (set_st s 0) in
       let rc := match r with Some rc => rc | None => c_PS_SUCCESS end in
       if (rc =? c_PS_SUCCESS)%Z then
-        if negb (pathlen_check a sc pl) then
+        if negb (pathlen_check fx a sc pl) then
           (c_PS_CERT_AUTH_FAIL_PATH_LEN, set_st s1 c_PS_CERT_AUTH_FAIL_PATH_LEN, false, FAnchor i)
         else if rv && (c_date_now a <? 0)%Z then (c_PS_PARSE_FAIL, s1, false, FAnchor i)
         else if rv && has_flag (if (0 <? c_date_now a)%Z then N.lor (c_fl0 a) n_PS_CERT_AUTH_FAIL_DATE_FLAG else c_fl0 a)
@@ -221,8 +228,8 @@ Definition validate (fx rv : bool) (chain anchors : list cert) : vres :=
       match anchors with
       | [] => let '(rc, l, f) := cm_walk fx leaf rest 0 in mkRes rc l f
       | _ :: _ =>
-        match walk fx 0 leaf (init leaf) rest with
-        | inl (rc, l) => mkRes rc l FNone
+        match walk fx 0 leaf (init leaf) rest 0 FNone with
+        | inl (rc, l, f) => mkRes rc l f
         | inr (pl, below, top) =>
             let '(rc, stop, eku, f) := anchor_loop fx rv leaf pl top (init top) anchors 0 in
             let l := below ++ [stop] in
